@@ -69,6 +69,14 @@ CLAIMED = {
             'Known findings: chatter acceptance (F9), run() True after failed init test (F18).',
             'DESIGN.md 4/C17', 'callee contracts assumed as listed in evidence; reals with explicit NaN flags',
             'contract-based deductive verification: path-wise postconditions by symbolic execution + SMT'),
+    'C09': ('proof',
+            'check_var/check_eq of LessThan, IsEqual, Limiter (HardLimiter, DeadBand), AntiWindup, Switcher, DeadBandRT, '
+            'Delay, Average, Derivative, Sampling and Limiter.do_adjust_* are symbolically executed for arbitrary array '
+            'length: flags agree with the comparisons, are exclusive/exhaustive, pegged states are clamped with zero '
+            'derivative and recorded in x_set, history components implement their shift-register / mean / quotient / '
+            'sample-and-hold definitions. Known findings F5, F6, F23.',
+            'DESIGN.md 4/C09', 'NumPy element-wise semantics; row projection for 2-D history arrays; step mode only',
+            'contract-based deductive verification: symbolic execution over quantified array contents + SMT'),
 }
 
 ALL = ['C%02d' % i for i in range(1, 21)]
